@@ -216,7 +216,17 @@ class PathTable:
                     vals = [comp_element(v, i) for i in range(len(t.elts))]
                 else:
                     vals = [sp.Function("getitem")(v, sp.Integer(i)) for i in range(len(t.elts))]
-                for e, vv in zip(t.elts, vals):
+                work = list(zip(t.elts, vals))
+                while work:
+                    e, vv = work.pop(0)
+                    if isinstance(e, (ast.Tuple, ast.List)):
+                        # nested target: (a, b), c = ...
+                        if isinstance(vv, sp.Tuple) and len(vv) == len(e.elts):
+                            sub = list(vv)
+                        else:
+                            sub = [sp.Function("getitem")(vv, sp.Integer(i)) for i in range(len(e.elts))]
+                        work = list(zip(e.elts, sub)) + work
+                        continue
                     if isinstance(e, ast.Name):
                         l.env[e.id] = vv
                     elif isinstance(e, (ast.Attribute, ast.Subscript)):
